@@ -182,6 +182,7 @@ var sketchUnit = transUnit{Dir: "ddsketch", File: "CodeSketch", NS: "DDS.Gen.Ske
 		"DDSketch.GetValuesAtQuantiles", "DDSketchWithExactSummaryStatistics.GetValuesAtQuantiles",
 		"DDSketch.Encode", "DDSketchWithExactSummaryStatistics.Encode",
 		"DDSketch.decodeAndMergeWith", "DDSketch.DecodeAndMergeWith",
+		"changeStoreMapping", "DDSketch.ChangeMapping",
 	}}
 
 var datasetUnit = transUnit{Dir: "dataset", File: "CodeDataset", NS: "DDS.Gen.Dataset", Mode: "f64",
@@ -343,6 +344,7 @@ type tr struct {
 	knownTrue map[types.Object]bool // `ok` of a type assertion on a specialised parameter
 	lits      map[*ast.FuncLit]*funcInfo // function literals passed as arguments, lifted to top-level definitions
 	litsOf    map[string][]string        // enclosing function -> keys of its lifted literals
+	forEachRange map[*ast.RangeStmt]string // synthetic `range` statements standing for `x.ForEach(func…{…; return false})`: the class
 }
 
 func (t *tr) fail(n ast.Node, format string, a ...interface{}) {
@@ -1695,6 +1697,9 @@ func argVarName(e ast.Expr) string {
 
 // a call whose callee writes through some of its arguments and/or whose results are bound to `lhs`
 func (t *tr) callStmt(x *ast.CallExpr, lhs []ast.Expr, define bool, sc *sctx, k string) string {
+	if rs := t.forEachAsRange(x); rs != nil && len(lhs) == 0 {
+		return t.rangeStmt(rs, sc, k)
+	}
 	c, hs := t.newE(sc)
 	// PutUint64 through an alias
 	if sel, ok := x.Fun.(*ast.SelectorExpr); ok {
@@ -1885,6 +1890,60 @@ func (t *tr) sortSliceKey(x *ast.CallExpr) string {
 		t.fail(x, "unsupported sort.Slice comparison")
 	}
 	return lname(f1)
+}
+
+// `x.ForEach(func(index int, count float64) (stop bool) { BODY; return false })` on a value of a declared store
+// class, with no other `return` in BODY: a loop over the bins the store enumerates (`StoreI.ForEachList x`), in the
+// store's order; variables of the enclosing function that BODY assigns become loop state as in any loop.
+func (t *tr) forEachAsRange(x *ast.CallExpr) *ast.RangeStmt {
+	sel, ok := x.Fun.(*ast.SelectorExpr)
+	if !ok || sel.Sel.Name != "ForEach" || len(x.Args) != 1 {
+		return nil
+	}
+	lit, ok := x.Args[0].(*ast.FuncLit)
+	if !ok {
+		return nil
+	}
+	nm, ok := t.typeOf(sel.X).(*types.Named)
+	if !ok || nm.Obj().Pkg() == nil {
+		return nil
+	}
+	is, ok := t.unit.Ifaces[nm.Obj().Pkg().Name()+"."+nm.Obj().Name()]
+	if !ok {
+		return nil
+	}
+	var names []*ast.Ident
+	for _, f := range lit.Type.Params.List {
+		names = append(names, f.Names...)
+	}
+	n := len(lit.Body.List)
+	if len(names) != 2 || n == 0 {
+		t.fail(x, "unsupported ForEach callback")
+	}
+	last, ok := lit.Body.List[n-1].(*ast.ReturnStmt)
+	if !ok || len(last.Results) != 1 {
+		t.fail(x, "unsupported ForEach callback (must end with `return false`)")
+	}
+	if id, ok := last.Results[0].(*ast.Ident); !ok || id.Name != "false" {
+		t.fail(x, "unsupported ForEach callback (must end with `return false`)")
+	}
+	body := &ast.BlockStmt{Lbrace: lit.Body.Lbrace, List: lit.Body.List[:n-1], Rbrace: lit.Body.Rbrace}
+	early := false
+	ast.Inspect(body, func(m ast.Node) bool {
+		if _, ok := m.(*ast.ReturnStmt); ok {
+			early = true
+		}
+		return !early
+	})
+	if early {
+		t.fail(x, "ForEach callback with an early return")
+	}
+	rs := &ast.RangeStmt{For: lit.Pos(), Key: names[0], Value: names[1], Tok: token.DEFINE, X: sel.X, Body: body}
+	if t.forEachRange == nil {
+		t.forEachRange = map[*ast.RangeStmt]string{}
+	}
+	t.forEachRange[rs] = is.Class
+	return rs
 }
 
 // `copy(dst, src)` as a statement.  `copy(x[a:], x[b:c])` on one slice is a memmove inside it
@@ -2485,6 +2544,7 @@ func (t *tr) rangeStmt(x *ast.RangeStmt, sc *sctx, k string) string {
 		t.fail(x, "loop in a pure function")
 	}
 	mt, isMap := t.typeOf(x.X).Underlying().(*types.Map)
+	feClass, isForEach := t.forEachRange[x]
 	keyName := ""
 	if x.Key != nil {
 		id, ok := x.Key.(*ast.Ident)
@@ -2496,7 +2556,10 @@ func (t *tr) rangeStmt(x *ast.RangeStmt, sc *sctx, k string) string {
 		}
 	}
 	var elemType string
-	if isMap {
+	if isForEach {
+		isMap = true // same shape as a map range: (key, value) pairs
+		elemType = "Int × " + t.fl()
+	} else if isMap {
 		elemType = "Int × " + t.leanType(mt.Elem())
 		// the loop may read, update or delete the entry of the current key only (iteration is over a snapshot)
 		ast.Inspect(x.Body, func(m ast.Node) bool {
@@ -2610,7 +2673,9 @@ func (t *tr) rangeStmt(x *ast.RangeStmt, sc *sctx, k string) string {
 	t.aux.WriteString(sig.String())
 	c, hs := t.newE(sc)
 	xs := t.expr(x.X, c)
-	if isMap {
+	if isForEach {
+		xs = "(" + feClass + ".ForEachList " + xs + ")"
+	} else if isMap {
 		xs = "(GoSem.mrange ord " + xs + ")"
 	}
 	comb := "Loop.elim"
